@@ -7,6 +7,7 @@ package lib
 // row says; what becomes visible / tracked / announced / probed / shared is compared with the specification's outcome.
 
 import (
+	"encoding/binary"
 	"encoding/json"
 	"fmt"
 	"io"
@@ -44,7 +45,16 @@ type vadmRow struct {
 	Blocked6   bool   `json:"blocked6"`
 	Share      bool   `json:"share"`
 	Live       bool   `json:"live"`
+	Ovr        string `json:"ovr"`
 }
+
+// registrar override addresses: an IPv4 one for the IPv4 half, an IPv6 one for the IPv6 half, and an IPv4 one that a
+// registrar put into the Ipv6Addr field ("cross": 4-byte and IPv4-mapped 16-byte encodings alternate)
+var (
+	vadmOv4    = net.ParseIP("192.122.190.77").To4()
+	vadmOv6    = net.ParseIP("2001:48a8:687f:1::77")
+	vadmCross4 = net.ParseIP("192.122.190.78").To4()
+)
 
 type vadmOut struct {
 	Visible   []string `json:"visible"`
@@ -69,8 +79,18 @@ var vadmSources = map[string]*pb.RegistrationSource{
 	"bddns":       pb.RegistrationSource_BidirectionalDNS.Enum(),
 }
 
-func vadmMessage(r *vadmRow, secret []byte) []byte {
+func vadmMessage(r *vadmRow, secret []byte, n int) []byte {
 	w := &pb.C2SWrapper{SharedSecret: secret, RegistrationSource: vadmSources[r.Source]}
+	switch r.Ovr {
+	case "same":
+		w.RegistrationResponse = &pb.RegistrationResponse{Ipv4Addr: proto.Uint32(binary.BigEndian.Uint32(vadmOv4)), Ipv6Addr: []byte(vadmOv6)}
+	case "cross":
+		x := []byte(vadmCross4)
+		if n%2 == 1 {
+			x = []byte(vadmCross4.To16())
+		}
+		w.RegistrationResponse = &pb.RegistrationResponse{Ipv4Addr: proto.Uint32(binary.BigEndian.Uint32(vadmOv4)), Ipv6Addr: x}
+	}
 	switch r.Registrant {
 	case "v4":
 		w.RegistrationAddress = net.ParseIP("198.51.100.7").To4()
@@ -161,9 +181,13 @@ func TestVerifAdmission(t *testing.T) {
 	if err4 != nil || err6 != nil {
 		t.Fatalf("phantom dry run: %v %v", err4, err6)
 	}
-	ph := map[string]net.IP{"v4": *p4.IP(), "v6": *p6.IP()}
-	_, n4, _ := net.ParseCIDR(ph["v4"].String() + "/32")
-	_, n6, _ := net.ParseCIDR(ph["v6"].String() + "/128")
+	derived := map[string]net.IP{"v4": *p4.IP(), "v6": *p6.IP()}
+	host := func(ip net.IP) *net.IPNet {
+		if ip.To4() != nil {
+			return &net.IPNet{IP: ip.To4(), Mask: net.CIDRMask(32, 32)}
+		}
+		return &net.IPNet{IP: ip, Mask: net.CIDRMask(128, 128)}
+	}
 
 	var announced int32
 	nrows, nmis := 0, 0
@@ -174,6 +198,15 @@ func TestVerifAdmission(t *testing.T) {
 		}
 		r := &l.Row
 		nrows++
+		// the phantom each half of the message will use
+		ph := map[string]net.IP{"v4": derived["v4"], "v6": derived["v6"]}
+		switch r.Ovr {
+		case "same":
+			ph["v4"], ph["v6"] = vadmOv4, vadmOv6
+		case "cross":
+			ph["v4"], ph["v6"] = vadmOv4, vadmCross4
+		}
+		n4, n6 := host(ph["v4"]), host(ph["v6"])
 		// a fresh registry, configured as the row says
 		rm.registeredDecoys = NewRegisteredDecoys()
 		_ = rm.AddTransport(pb.TransportType_Min, min.Transport{})
@@ -201,7 +234,7 @@ func TestVerifAdmission(t *testing.T) {
 					got["panic"] = fmt.Sprint(rec)
 				}
 			}()
-			regs, err := rm.parseRegMessage(vadmMessage(r, secret))
+			regs, err := rm.parseRegMessage(vadmMessage(r, secret, nrows))
 			if err == nil {
 				for _, reg := range regs {
 					if reg != nil {
@@ -246,8 +279,14 @@ func TestVerifAdmission(t *testing.T) {
 		}
 		mu.Unlock()
 		got["visible"], got["tracked"] = visible, tracked
+		// with an override in force nothing may be registered on the phantoms the station derived itself
+		stray := 0
+		if r.Ovr == "same" || r.Ovr == "cross" {
+			stray = rm.CountRegistrations(derived["v4"]) + rm.CountRegistrations(derived["v6"])
+		}
+		got["stray"] = stray
 		got["announced"], got["probes"], got["shares"] = int(atomic.LoadInt32(&announced)), int(atomic.LoadInt32(&live.calls)), nshare
-		want := map[string]any{"visible": l.Out.Visible, "tracked": l.Out.Tracked, "announced": l.Out.Announced, "probes": l.Out.Probes, "shares": l.Out.Shares}
+		want := map[string]any{"visible": l.Out.Visible, "tracked": l.Out.Tracked, "announced": l.Out.Announced, "probes": l.Out.Probes, "shares": l.Out.Shares, "stray": 0}
 		if want["visible"] == nil {
 			want["visible"] = []string{}
 		}
